@@ -3,6 +3,7 @@ CONSTANTS
   MaxSteps = 4
   Kinds = {"select", "poll", "pollfix", "epoll"}
   RegObj = {1, 3}
+  IntCapable = {3}
   Monitor = FALSE
 INVARIANT TypeOK
 CHECK_DEADLOCK FALSE
